@@ -7,13 +7,14 @@ B == {0, 1}
 Ion == {[mode |-> "ion", diffuse |-> d, continuous |-> cs, trackers |-> tr, plot |-> pl, copy |-> cp, nthr |-> t] :
           d \in B, cs \in B, tr \in B, pl \in B, cp \in {0, 2}, t \in {1, 2, 4}}
 \* first: "first snapshot" (only with snaps = 1); maxb: "maximum number of backups" (only in restart mode)
+\* aniso: 16x8x8 cells in 2x2x2 subgrids (cells per subgrid differ between the axes) instead of 8x8x8
 Rhd == {[mode |-> m, live |-> lv, ionsurf |-> iv, mask |-> mk, turb |-> tb, snaps |-> sn, first |-> fs, maxb |-> mb,
-         nthr |-> t] :
+         nthr |-> t, aniso |-> an] :
           m \in {"rhd", "rhdrad", "restart"}, lv \in B, iv \in B, mk \in B, tb \in B, sn \in B,
-          fs \in {0, 2, 9}, mb \in {1, 2, 3}, t \in {1, 2, 4}} \ 
+          fs \in {0, 2, 9}, mb \in {1, 2, 3}, t \in {1, 2, 4}, an \in B} \ 
        {c \in [mode : {"rhd", "rhdrad", "restart"}, live : B, ionsurf : B, mask : B, turb : B, snaps : B,
-               first : {0, 2, 9}, maxb : {1, 2, 3}, nthr : {1, 2, 4}] :
-            (c.snaps = 0 /\ c.first # 0) \/ (c.mode # "restart" /\ c.maxb # 1)}
+               first : {0, 2, 9}, maxb : {1, 2, 3}, nthr : {1, 2, 4}, aniso : B] :
+            (c.snaps = 0 /\ c.first # 0) \/ (c.mode # "restart" /\ c.maxb # 1) \/ (c.mode = "rhdrad" /\ c.aniso = 1)}
 ASSUME PrintT(<<"CONFIGS", ToJson(Ion \cup Rhd)>>)
 VARIABLE x
 Init == x = 0
